@@ -332,6 +332,24 @@ pub fn run(out: &mut Out, tier: &str, rng: &mut Rng) {
             }
         }
     }
+    // 2c. user-defined (or foreign, mapped) types whose names look like number types without being one: ordinary names
+    for name in ["u256", "i256", "f16", "u24", "f128", "U8", "i", "u", "f", "usize2", "i32x4"] {
+        let n = RTy::Named(name.to_string());
+        let b = |t: &RTy| Box::new(t.clone());
+        for t in [n.clone(), RTy::Vec(b(&n)), RTy::Opt(b(&n)), RTy::HMap(Box::new(RTy::Prim("String".into())), b(&n))] {
+            for site in SITES {
+                for mode in ["ts", "zod"] {
+                    if mode == "zod" && !(*site == "param" || *site == "field") {
+                        continue;
+                    }
+                    let mut mp = serde_json::Map::new();
+                    mp.insert(name.to_string(), json!("string"));
+                    out.case("site", json!({"rty": t.to_json(), "site": site, "mode": mode, "mappings": mp}), json!({"gen": "numlike-mapped"}));
+                    out.case("site", json!({"rty": t.to_json(), "site": site, "mode": mode, "mappings": {}}), json!({"gen": "numlike"}));
+                }
+            }
+        }
+    }
     // 2b. deep nesting (no bound on the depth of a type expression): 20, 33, 36 wrappers around a tuple / a named type
     for &d in &[20usize, 33, 36] {
         for (wi, inner) in [RTy::Tup(vec![RTy::Prim("u8".into()), RTy::Prim("String".into())]), RTy::Named("User".into())].iter().enumerate() {
@@ -433,6 +451,22 @@ pub fn run_mappings(out: &mut Out, tier: &str, rng: &mut Rng) {
                         }
                         out.case("site", json!({"rty": c.to_json(), "site": site, "mode": mode, "mappings": t}),
                                  json!({"gen": "mapping"}));
+                    }
+                }
+            }
+        }
+    }
+    // mapped names that look like number types without being one (`u256` from a big-integer crate, `f16`)
+    for name in ["u256", "i256", "f16", "u24", "f128", "U8"] {
+        let n = RTy::Named(name.to_string());
+        let b = |t: &RTy| Box::new(t.clone());
+        for c in [n.clone(), RTy::Vec(b(&n)), RTy::Opt(b(&n)), RTy::HMap(Box::new(RTy::Prim("String".into())), b(&n)), RTy::Tup(vec![n.clone(), RTy::Prim("u8".into())])] {
+            for site in SITES {
+                for mode in ["ts", "zod"] {
+                    for target in ["string", "boolean"] {
+                        let mut mp = serde_json::Map::new();
+                        mp.insert(name.to_string(), json!(target));
+                        out.case("site", json!({"rty": c.to_json(), "site": site, "mode": mode, "mappings": mp}), json!({"gen": "mapping-numlike"}));
                     }
                 }
             }
